@@ -462,7 +462,18 @@ class EdgeQLSourceGenerator(codegen.SourceGenerator):
 
     def visit_DetachedExpr(self, node: qlast.DetachedExpr) -> None:
         self._write_keywords('DETACHED ')
-        self.visit(node.expr)
+        # DETACHED binds tighter than path steps and shapes:
+        # `detached (A.b)` is not `detached A.b` (= `(detached A).b`).
+        if (
+            isinstance(node.expr, qlast.Path)
+            and len(node.expr.steps) == 1
+            and not node.expr.partial
+        ):
+            self.visit(node.expr)
+        else:
+            self.write('(')
+            self.visit(node.expr)
+            self.write(')')
 
     def visit_GlobalExpr(self, node: qlast.GlobalExpr) -> None:
         self._write_keywords('GLOBAL ')
